@@ -84,6 +84,12 @@ def r20_3(ctx):
     cfg = cr.cfg
     zero = [(dn, t) for (dn, t, v) in q.assigns(cr, lambda t: t.startswith('self.id_to_refcount[')) if ast.unparse(v) == '0']
     ok = bool(zero) and all(q.has_guard(cr, dn, 'ident in self.id_to_refcount', False) for (dn, t) in zero)
+    # ... or the equivalent self.id_to_refcount.setdefault(ident, 0)
+    sd = [c for (n_, c) in q.calls(cr, 'self.id_to_refcount.setdefault')
+          if len(c.args) == 2 and isinstance(c.args[1], ast.Constant) and c.args[1].value == 0]
+    if not zero and sd:
+        ok = True
+        zero = [(cr.cfg.node_containing(sd[0])[0], None)]
     ctx.ob('R20.3', 'create:count-zeroed-only-for-a-new-id', ok, cr, zero[0][0] if zero else None,
            'if ident not in self.id_to_refcount: self.id_to_refcount[ident] = 0 (an object created twice keeps its count)')
     inc = [(n, c) for (n, c) in q.calls(cr, 'self.incref')]
